@@ -241,6 +241,54 @@ pub fn run(tier: Tier) -> i32 {
         extra: vec![],
     });
 
+    // call histories: fold(A) then fold(B) on one thread, for every ordered pair of shapes - a fold
+    // must not depend on what was folded before it (scratch tables, caches keyed too coarsely)
+    let hshapes: Vec<Vec<usize>> = shapes(4, 1, 7, tier.pick(30, 52));
+    let hres = par_map(hshapes.len(), |ai| {
+        let a = labeled(&hshapes[ai], "lin");
+        let mut viols: Vec<Viol> = Vec::new();
+        let mut n = 0u64;
+        for b_shape in &hshapes {
+            n += 1;
+            let b = labeled(b_shape, "lin");
+            let expect = b.fold(-1.0);
+            let got = catch(|| {
+                let _ = scs_from_ref(&a).fold().into_spectrum(0.0);
+                ref_from_spectrum(&scs_from_ref(&b).fold().into_spectrum(-1.0))
+            });
+            match got {
+                Ok(g) if same_arr(&g, &expect) => {}
+                other => {
+                    if viols.len() < 3 {
+                        viols.push((
+                            format!("C05|lib|fold-depends-on-previous-fold|{}", shape_class(b_shape)),
+                            format!("fold of shape {b_shape:?} directly after a fold of shape {:?} on the same thread gives {:?}, expected {:?}", hshapes[ai], other.map(|g| g.data), expect.data),
+                            J::obj([("kind", J::s("c05-hist")), ("first", J::usizes(&hshapes[ai])), ("shape", J::usizes(b_shape))]),
+                        ));
+                    }
+                }
+            }
+        }
+        (n, viols)
+    });
+    let mut ev = 0;
+    for (n, v) in hres {
+        ev += n;
+        for (k, w, j) in v {
+            rep.violation(k, w, j);
+        }
+    }
+    rep.states += hshapes.len() as u64;
+    rep.transitions += ev;
+    rep.part(Part {
+        name: "lib: fold after fold (call histories of length 2)".into(),
+        evaluations: ev,
+        nontrivial: ev,
+        note: format!("every ordered pair of the {} shapes with <= {} cells folded back to back on one thread; the second result must be the one a fresh process gives", hshapes.len(), tier.pick(30, 52)),
+        exhaustive: true,
+        extra: vec![],
+    });
+
     let all = shapes(4, 1, 7, usize::MAX);
     let labs: &[&str] = if tier.thorough() {
         &["lin", "hash", "special", "special2"]
@@ -309,8 +357,21 @@ pub fn run(tier: Tier) -> i32 {
 
 pub fn replay(case: &J) -> Option<Vec<String>> {
     let shape = case.get("shape")?.as_usizes()?;
-    let lab = case.get("labeling")?.as_str()?.to_string();
+    let lab = case.get("labeling").and_then(|l| l.as_str()).unwrap_or("lin").to_string();
     match case.get("kind")?.as_str()? {
+        "c05-hist" => {
+            let first = labeled(&case.get("first")?.as_usizes()?, "lin");
+            let b = labeled(&shape, "lin");
+            let expect = b.fold(-1.0);
+            let got = catch(|| {
+                let _ = scs_from_ref(&first).fold().into_spectrum(0.0);
+                ref_from_spectrum(&scs_from_ref(&b).fold().into_spectrum(-1.0))
+            });
+            Some(match got {
+                Ok(g) if same_arr(&g, &expect) => vec![],
+                other => vec![format!("C05|lib|fold-depends-on-previous-fold :: {other:?}, expected {:?}", expect.data)],
+            })
+        }
         "c05-lib" => {
             let (_, v) = check_shape(&shape, &lab);
             Some(v.into_iter().map(|(k, w, _)| format!("{k} :: {w}")).collect())
